@@ -2,6 +2,7 @@ import NA.Core.IOUtil
 import NA.Model.CryptoMapDev
 import NA.Proofs.VpnGraphFinal
 import NA.Proofs.VpnGraphRefs
+import NA.Proofs.VpnGraphStable
 /-!
 Driver `nadrv-c10`: the crypto map models of `NA.Vpn` on one case per line.
 
@@ -122,14 +123,19 @@ def runGraph (fs : List String) : String :=
     let tail := match G.execAll { objs := a } st.out with
       | some d =>
         "acc" ++ (if G.view d.objs == G.view b then "+conv" else "") ++
-          (if G.frame a d.objs == G.frame a a then "+frame" else "") ++ "\t" ++
+          (if G.frame a d.objs == G.frame a a then "+frame" else "") ++
+          -- the hypotheses of `graph_converges_partial` (second compare empty, result well-formed) and its conclusion
+          (if G.wfB d.objs b && G.wf2B d.objs b && G.engine d.objs b == some [] then "+stable" else "") ++
+          (if (d.objs.filter (fun (o : G.Obj) => o.anchor)).all (fun o => G.eqv G.fuel d.objs b o.id o.id) &&
+              (b.filter (fun (o : G.Obj) => o.anchor)).all (fun o => d.objs.any fun x => x.anchor && x.id == o.id) then "+eqv" else "") ++ "\t" ++
           (match G.script d.objs b with
            | some ls => "|".intercalate ls
            | none => "abort")
       | none => "rej\t"
     -- the decidable hypotheses of the C07 theorems with R = everything the device's anchors reach
     let hyp := (if G.closedB (G.managedSet a) a && G.anchorsB (G.managedSet a) a && G.kindByKeyB a b then "+hyp" else "") ++
-      (if G.wfB a b && G.kindByKeyB a b then "+wf" else "")
+      (if G.wfB a b && G.kindByKeyB a b then "+wf" else "") ++ (if G.wfB a b && G.wf2B a b then "+wf2" else "") ++
+      (if (G.Ranked.decB a && G.Ranked.decB b) then "+ranked" else "")
     "ok\t" ++ "|".intercalate (st.out.map G.Chg.render) ++ "\t" ++ tail.replace "\t" (hyp ++ "\t")
   | none => "abort"
 
